@@ -856,9 +856,30 @@ def _agg(cells, op, *args):
         # pandas groupby any()/all() skip missing values (skipna): any = some present value is True, all = every present value is True
         vals = [zand(znot(c.null), _boolval(c)) if op == "any" else zor(c.null, _boolval(c)) for c in cells]
         return Cell(FALSE, (zor(*vals) if op == "any" else zand(*vals)) if vals else z3.BoolVal(op == "all"), "b", dc, kf)
-    if op in ("median", "std", "var"):
-        raise Unmodelled(f"{op} (outside the linear fragment)")
+    if op in ("median", "var"):
+        # missing values are skipped; which cells are present (and, for the median, their order) are structural decisions: forked on
+        if any(c.kind == "s" for c in cells):
+            raise Unmodelled(f"{op} of strings")
+        vals = [C.real(c) for c in cells if not C.is_null_py(c)]
+        return _var_or_median(op, vals, dc, kf)
+    if op == "std":
+        raise Unmodelled("std (square root: outside the polynomial fragment)")
     raise Unmodelled(f"aggregation {op}")
+
+
+def _var_or_median(op, vals, dc=FALSE, kf=FALSE):
+    """sample variance (ddof=1) / median of a list of z3 reals already known to be present; null below 2 (variance) / 1 (median) values"""
+    m = len(vals)
+    if op == "var":
+        if m < 2:
+            return Cell(TRUE, z3.RealVal(0), "f", dc, kf)
+        mean = z3.Sum(vals) / m
+        return Cell(FALSE, z3.Sum([(v - mean) * (v - mean) for v in vals]) / (m - 1), "f", dc, kf)
+    if m < 1:
+        return Cell(TRUE, z3.RealVal(0), "f", dc, kf)
+    order = sorted(range(m), key=functools.cmp_to_key(lambda i, j: 0 if i == j else (-1 if B(vals[i] <= vals[j]) else 1)))
+    s = [vals[i] for i in order]
+    return Cell(FALSE, s[m // 2] if m % 2 else (s[m // 2 - 1] + s[m // 2]) / 2, "f", dc, kf)
 
 
 def _transform(cells, op, *args):
